@@ -143,11 +143,15 @@ func runRaceMisc(o *opts) (*summary, error) {
 					return
 				default:
 				}
-				rmu.Lock()
-				m := lt.Event.message(rng, 0x17, []byte{9, 9, 9, 9}, "valid", nil)
-				rmu.Unlock()
-				c.Write(m)
-				time.Sleep(200 * time.Microsecond)
+				// bursts of events back to back (the next datagram is already queued when the previous one is handed over),
+				// then a short pause
+				for k := 0; k < 6; k++ {
+					rmu.Lock()
+					m := lt.Event.message(rng, 0x17, []byte{9, 9, 9, 9}, "valid", nil)
+					rmu.Unlock()
+					c.Write(m)
+				}
+				time.Sleep(300 * time.Microsecond)
 			}
 		}()
 		time.Sleep(time.Duration(10+rng.Intn(30)) * time.Millisecond)
